@@ -848,6 +848,7 @@ def fam_concat(rng):
             return ("regular", permute_fields(t[1]), t[2])
         return t
     arrays, lays = [], []
+    named = rng.random() < 0.25
     for T in Ts:
         vals = [L.gen_value(rng, T) for _ in range(L.toplen(rng, 0, 3))]
         arrays.append(vals)
@@ -868,7 +869,15 @@ def fam_concat(rng):
         enc = L.Enc(rng)
         if mode == "rect":
             enc.ndnumpy_p = 0.85
-        lays.append(enc.encode(vv, TT))
+        lay_ = enc.encode(vv, TT)
+        if named:
+            # record names are part of the type: same name merges, different names give a union; values are unaffected
+            nm = rng.choice(['"A"', '"A"', '"B"', None])
+            if nm:
+                for nd in _nodes(lay_):
+                    if isinstance(nd, L.RC):
+                        nd.with_params({"__record__": nm})
+        lays.append(lay_)
     ref = [v for a in arrays for v in a]      # (dict values compare by key set and values; order of the first array)
     mergebool = rng.random() < 0.5
     what = "concatenate(%r)" % (arrays,)
@@ -1078,7 +1087,7 @@ def fam_layout_independent(rng):
     return Case("both %d %s %s" % (len(lineA.split()), lineA, lineB), check, {"value": vals, "type": T})
 
 
-def ref_type(T):
+def ref_type(T, categorical=False):
     """the documented (datashape-like) item type of an array whose elements have type T"""
     k = T[0]
     if k == "num":
@@ -1092,13 +1101,27 @@ def ref_type(T):
     if k == "option":
         inner = ref_type(T[1])
         # (strings are list types: their option prints with brackets)
-        return "option[%s]" % inner if T[1][0] in ("list", "regular", "string") else "?" + inner
+        base = T[1][1] if T[1][0] == "categorical" else T[1]      # (a categorical string is still a list type)
+        return "option[%s]" % inner if base[0] in ("list", "regular", "string") else "?" + inner
     if k == "record":
+        name = T[3] if len(T) > 3 else None
+        if name and not categorical:
+            # a named record: Name["x": t, ...] / Name[t, ...]
+            if T[1] is None:
+                return name + "[" + ", ".join(ref_type(t) for t in T[2]) + "]"
+            return name + "[" + ", ".join('"%s": %s' % (kk, ref_type(t)) for kk, t in zip(T[1], T[2])) + "]"
+        if name:
+            # a name together with another parameter (here: categorical) is spelled out in the general form
+            if T[1] is None:
+                return 'tuple[[%s], parameters={"__record__": "%s"}]' % (", ".join(ref_type(t) for t in T[2]), name)
+            return 'struct[[%s], [%s], parameters={"__record__": "%s"}]' % (", ".join('"%s"' % kk for kk in T[1]), ", ".join(ref_type(t) for t in T[2]), name)
         if T[1] is None:
             return "(" + ", ".join(ref_type(t) for t in T[2]) + ")"
         return "{" + ", ".join('"%s": %s' % (kk, ref_type(t)) for kk, t in zip(T[1], T[2])) + "}"
     if k == "union":
         return "union[" + ", ".join(ref_type(t) for t in T[1]) + "]"
+    if k == "categorical":
+        return "categorical[type=%s]" % ref_type(T[1], categorical=True)
     raise ValueError(T)
 
 
@@ -1112,7 +1135,7 @@ def _depth_range(T):
     if k in ("list", "regular"):
         a, b = _depth_range(T[1])
         return a + 1, b + 1
-    if k == "option":
+    if k in ("option", "categorical"):
         return _depth_range(T[1])
     if k == "record":
         rs = [_depth_range(t) for t in T[2]] or [(1, 1)]
@@ -1131,7 +1154,7 @@ def _branch_depth(T):
     if k in ("list", "regular"):
         b, d = _branch_depth(T[1])
         return b, d + 1
-    if k == "option":
+    if k in ("option", "categorical"):
         return _branch_depth(T[1])
     subs = [_branch_depth(t) for t in (T[2] if k == "record" else T[1])]
     if not subs:
@@ -1144,7 +1167,11 @@ def fam_types(rng):
     """C17: the item type of an array is what its data are (documented type syntax), the type obtained from the form
     equals the type obtained from the array, a range slice has the same type, an element taken out of a list-typed array
     has the inner type, and depth / field queries agree with the value"""
-    T = L.gen_type(rng, rng.randint(0, 3), allow_union=True)
+    L.NAMES, L.CATEGORICAL = 0.3, 0.12       # record names and categorical leaves: in this family only
+    try:
+        T = L.gen_type(rng, rng.randint(0, 3), allow_union=True)
+    finally:
+        L.NAMES, L.CATEGORICAL = 0.0, 0.0
     vals = [L.gen_value(rng, T) for _ in range(L.toplen(rng, 0, 4))]
     lay = L.Enc(rng).encode(vals, T)
     n = len(vals)
